@@ -19,6 +19,7 @@ var (
 	ErrPIDNotFound      = errors.New("astits: PID not found")
 	ErrPIDAlreadyExists = errors.New("astits: PID already exists")
 	ErrPCRPIDInvalid    = errors.New("astits: PCR PID invalid")
+	ErrNoFreePID        = errors.New("astits: no free PID")
 )
 
 type Muxer struct {
@@ -120,6 +121,16 @@ func (m *Muxer) AddElementaryStream(es PMTElementaryStream) error {
 			}
 		}
 	} else {
+		// Pick the next PID that is neither reserved nor already in use
+		if m.nextPID < startPID {
+			m.nextPID = startPID
+		}
+		for m.isPIDTaken(m.nextPID) {
+			m.nextPID++
+		}
+		if m.nextPID >= PIDNull {
+			return ErrNoFreePID
+		}
 		es.ElementaryPID = m.nextPID
 		m.nextPID++
 	}
@@ -131,6 +142,19 @@ func (m *Muxer) AddElementaryStream(es PMTElementaryStream) error {
 	m.pmtBytes.Reset()
 	m.pmtUpdated = true
 	return nil
+}
+
+// isPIDTaken checks whether the pid is used by the PMT or by an elementary stream
+func (m *Muxer) isPIDTaken(pid uint16) bool {
+	if pid == pmtStartPID {
+		return true
+	}
+	for _, oes := range m.pmt.ElementaryStreams {
+		if oes.ElementaryPID == pid {
+			return true
+		}
+	}
+	return false
 }
 
 func (m *Muxer) RemoveElementaryStream(pid uint16) error {
